@@ -309,7 +309,7 @@ theorem followUpdateFollowers_ok (actorIRI : Iri) (rs : List Iri) : LockOK re []
   exact Lk.locked (by simp) (by lk_auto)
 
 theorem followRespond_ok (F : TFacts) (cfg : CbConfig) (box : Iri) (a : J) (actorIRI : Iri)
-    (addNewIds : J → Prog J) (deliver : Iri → J → Prog Unit)
+    (addNewIds : J → Prog J) (deliver : Iri → J → Prog J)
     (h1 : ∀ v, LockOK re [] (addNewIds v)) (h2 : ∀ o v, LockOK re [] (deliver o v)) :
     LockOK re [] (followRespond F cfg box a actorIRI addNewIds deliver) := by
   unfold followRespond followResponseType
@@ -323,10 +323,10 @@ theorem followRespond_ok (F : TFacts) (cfg : CbConfig) (box : Iri) (a : J) (acto
     · exact Lk.pure' _
   intro _
   apply Lk.bind (Lk.locked (by simp) (by lk_auto)); intro outboxIRI
-  exact Lk.bind (h1 _) fun resp => h2 _ _
+  exact Lk.bind (h1 _) fun resp => Lk.bind (h2 _ _) fun _ => Lk.pure' _
 
 theorem fedFollow_ok (F : TFacts) (cfg : CbConfig) (box : Iri) (a : J)
-    (addNewIds : J → Prog J) (deliver : Iri → J → Prog Unit)
+    (addNewIds : J → Prog J) (deliver : Iri → J → Prog J)
     (h1 : ∀ v, LockOK re [] (addNewIds v)) (h2 : ∀ o v, LockOK re [] (deliver o v)) :
     LockOK re [] (fedFollow F cfg box a addNewIds deliver) := by
   unfold fedFollow
@@ -337,7 +337,7 @@ theorem fedFollow_ok (F : TFacts) (cfg : CbConfig) (box : Iri) (a : J)
   · split
     · exact followRespond_ok _ _ _ _ _ _ _ h1 h2
     · exact Lk.pure' _
-  · intro _; exact wrappedAfter_ok _ _ _ _
+  · intro _; exact Lk.bind (wrappedAfter_ok _ _ _ _) fun _ => Lk.pure' _
 
 theorem acceptFindFollow_ok (F : TFacts) (box : Iri) (op : List J) (actorIRI : Iri) :
     LockOK re [] (acceptFindFollow F box op actorIRI) := by
@@ -453,23 +453,23 @@ theorem fedBlock_ok (F : TFacts) (cfg : CbConfig) (a : J) : LockOK re [] (fedBlo
   apply Lk.bind (requireObject_ok _ _); intro op
   exact wrappedAfter_ok _ _ _ _
 
-theorem fedCb_ok (F : TFacts) (addNewIds : J → Prog J) (deliver : Iri → J → Prog Unit)
+theorem fedCb_ok (F : TFacts) (addNewIds : J → Prog J) (deliver : Iri → J → Prog J)
     (h1 : ∀ v, LockOK re [] (addNewIds v)) (h2 : ∀ o v, LockOK re [] (deliver o v))
     (cfg : CbConfig) (box : Iri) (ty : String) (a : J) : LockOK re [] (fedCb F addNewIds deliver cfg box ty a) := by
   unfold fedCb
   split
-  · exact fedCreate_ok _ _ _ _
-  · exact fedUpdate_ok _ _ _
-  · exact fedDelete_ok _ _ _
+  · exact Lk.bind (fedCreate_ok _ _ _ _) fun _ => Lk.pure' _
+  · exact Lk.bind (fedUpdate_ok _ _ _) fun _ => Lk.pure' _
+  · exact Lk.bind (fedDelete_ok _ _ _) fun _ => Lk.pure' _
   · exact fedFollow_ok _ _ _ _ _ _ h1 h2
-  · exact fedAccept_ok _ _ _ _
-  · exact wrappedAfter_ok _ _ _ _
-  · exact fedAdd_ok _ _ _ _
-  · exact fedRemove_ok _ _ _ _
-  · exact fedLike_ok _ _ _
-  · exact fedAnnounce_ok _ _ _
-  · exact fedUndo_ok _ _ _ _ _
-  · exact fedBlock_ok _ _ _
+  · exact Lk.bind (fedAccept_ok _ _ _ _) fun _ => Lk.pure' _
+  · exact Lk.bind (wrappedAfter_ok _ _ _ _) fun _ => Lk.pure' _
+  · exact Lk.bind (fedAdd_ok _ _ _ _) fun _ => Lk.pure' _
+  · exact Lk.bind (fedRemove_ok _ _ _ _) fun _ => Lk.pure' _
+  · exact Lk.bind (fedLike_ok _ _ _) fun _ => Lk.pure' _
+  · exact Lk.bind (fedAnnounce_ok _ _ _) fun _ => Lk.pure' _
+  · exact Lk.bind (fedUndo_ok _ _ _ _ _) fun _ => Lk.pure' _
+  · exact Lk.bind (fedBlock_ok _ _ _) fun _ => Lk.pure' _
   · exact Lk.fail _
 
 /-! ### pub/social_wrapped_callbacks.go -/
@@ -534,8 +534,7 @@ theorem socCb_ok (F : TFacts) (cfg : CbConfig) (outbox : Iri) (raw : J) (ty : St
 theorem fedCbFull_ok (F : TFacts) (cfg : CbConfig) (box : Iri) (ty : String) (a : J) :
     LockOK re [] (fedCbFull F cfg box ty a) := by
   unfold fedCbFull
-  exact fedCb_ok F _ _ (fun v => addNewIDs_ok F v)
-    (fun o v => Lk.bind (deliverS2S_ok F o v) fun _ => Lk.pure' _) cfg box ty a
+  exact fedCb_ok F _ _ (fun v => addNewIDs_ok F v) (fun o v => deliverS2S_ok F o v) cfg box ty a
 
 theorem postInbox_ok (F : TFacts) (inbox : Iri) (a : J) : LockOK re [] (postInbox F (fedCbFull F) inbox a) := by
   unfold postInbox
@@ -545,9 +544,9 @@ theorem postInbox_ok (F : TFacts) (inbox : Iri) (a : J) : LockOK re [] (postInbo
   · apply Lk.bind Lk.fedCallbacks; intro cfg
     split
     · exact Lk.fail _
-    · exact Lk.otherCb _ _ _
+    · exact Lk.bind (Lk.otherCb _ _ _) fun _ => Lk.pure' _
     · exact fedCbFull_ok _ _ _ _ _
-    · exact Lk.fedDefault _
+    · exact Lk.bind (Lk.fedDefault _) fun _ => Lk.pure' _
 
 theorem postOutboxEffects_ok (F : TFacts) (cfg : ActorCfg) (a : J) (outbox : Iri) (raw : J) :
     LockOK re [] (postOutboxEffects F cfg (socCb F) a outbox raw) := by
